@@ -373,12 +373,18 @@ def classify(exc):
 
 
 def py_run(e, P):
-    """('ok', observation) or ('err', enum, exception text)"""
+    """('ok', observation, value) or ('err', enum, exception text, exception)"""
     try:
         v = py_eval(e, P)
-        return ("ok", py_observe(v, P))
+        return ("ok", py_observe(v, P), v)
     except Exception as exc:  # noqa
-        return ("err", classify(exc), f"{type(exc).__name__}: {str(exc)[:120]}")
+        return ("err", classify(exc), f"{type(exc).__name__}: {str(exc)[:120]}", exc)
+
+
+def api_of(n, P):
+    if n.api is None:
+        n.api = py_run(n.e, P)
+    return n.api
 
 
 # ------------------------------------------------------------------------------------------------
@@ -774,10 +780,11 @@ def spec_force(v, P):
 # program generation (population of typed sub-programs, grown level by level)
 
 class Node:
-    __slots__ = ("e", "d", "val", "status", "prod", "single")
+    __slots__ = ("e", "d", "val", "status", "prod", "single", "api")
 
     def __init__(self, e, d, val, status, prod=False, single=False):
         self.e, self.d, self.val, self.status, self.prod, self.single = e, d, val, status, prod, single
+        self.api = None
 
 
 def _try(op, nodes, P, e):
@@ -908,12 +915,128 @@ def generate_programs(ctx, P, maxdepth, per_level):
     return well, ill + wrapped, anys
 
 
+
+def _opi(P, d, r, u, dense=False):
+    for i, o in enumerate(P.ops):
+        if (o["dom"], o["ran"], o["dual"], o["dense"]) == (d, r, u, dense) and o["kind"] != "ida":
+            return ("op", i)
+    return None
+
+
+def _mk(e, P):
+    """Node of a hand-written expression (typed by the NumPy denotation)"""
+    try:
+        return Node(e, depth(e), spec_eval(e, P), "ok")
+    except SpecErr:
+        return Node(e, depth(e), None, "err", single=False)
+    except SpecAny:
+        return Node(e, depth(e), None, "any")
+
+
+def _arr(m, n, cells):
+    k = ("blk", m, n)
+    for (i, j, o) in cells:
+        k = ("set", i, j, k, o)
+    return k
+
+
+def _lst(items):
+    l = ("lnil",)
+    for g in reversed(items):
+        l = ("lcons", g, l)
+    return l
+
+
+def catalogue(ctx, P):
+    """Every documented combination and every kind / space mismatch at least once: all unary operations on, and all
+    binary operations between, a basis of building blocks (all leaves, block arrays incl. empty blocks, incomplete arrays,
+    rows whose range and dual spaces have different dof counts, lists, discrete operators of every class, lazy operators)."""
+    o000, o111, o011, o100, o001 = (_opi(P, *t) for t in [(0, 0, 0), (1, 1, 1), (0, 1, 1), (1, 0, 0), (0, 0, 1)])
+    o002, o022, o200, o222, o333 = (_opi(P, *t) for t in [(0, 0, 2), (0, 2, 2), (2, 0, 0), (2, 2, 2), (3, 3, 3)])
+    dense = _opi(P, 1, 1, 1, dense=True)
+    gf = lambda i: ("gf", i)  # noqa
+    sc = [("sc", "float", 1.5, 0.0), ("sc", "complex", 0.5, -1.0), ("sc", "f64", -2.0, 0.0), ("sc", "c128", 0.25, 0.75),
+          ("sc", "f32", 0.5, 0.0), ("sc", "c64", -1.0, 0.5)]
+    K1 = _arr(1, 1, [(0, 0, o000)])
+    K2 = _arr(2, 2, [(0, 0, o000), (1, 1, o111)])
+    K3 = _arr(2, 2, [(0, 0, o000), (0, 1, o100), (1, 0, o011), (1, 1, o111)])
+    K4 = _arr(1, 1, [(0, 0, o002)])
+    K5 = _arr(2, 1, [(0, 0, o002), (1, 0, o011)])
+    K6 = _arr(2, 2, [(0, 0, o000)])
+    K7 = _arr(1, 2, [(0, 0, o000), (0, 1, o100)])
+    K8 = _arr(2, 2, [(0, 0, o000), (1, 1, dense)])
+    exprs = [("op", i) for i in range(len(P.ops))] + [gf(i) for i in range(len(P.gfs))] + \
+            [("pot", i) for i in range(len(P.pots))] + sc
+    if ctx.thorough:
+        exprs += [K1, K2, K3, K4, K5, K6, K7, K8, ("add", K2, K2), ("mul", sc[1], K2), ("mul", K2, K3), ("blk", 2, 2)]
+        exprs += [_lst([]), _lst([gf(0)]), _lst([gf(1), gf(3)]), _lst([gf(2), gf(0)]), _lst([gf(0), gf(2)]),
+                  _lst([gf(7), gf(8)]), _lst([gf(0), gf(1), gf(2)])]
+        exprs += [("weak", o000), ("weak", dense), ("strong", o000), ("weak", K2), ("weak", o200), ("weak", o022),
+                  ("weak", o111), ("strong", K2), ("mul", sc[1], ("weak", dense)), ("add", ("weak", o000), ("weak", o000)),
+                  ("add", ("weak", o111), ("weak", dense))]
+        exprs += [("add", o000, o000), ("mul", sc[0], o000), ("mul", o000, o000), ("mul", o001, o000), ("mul", o011, o100),
+                  ("add", ("pot", 0), ("pot", 1)), ("mul", sc[1], ("pot", 0)), ("mul", o000, gf(0)), ("mul", o001, gf(1)),
+                  ("mul", o002, gf(0)), ("mul", ("pot", 0), gf(2))]
+    else:
+        exprs += [K2, K3, K4, K5, K6, ("add", K2, K2), ("mul", K2, K3)]
+        exprs += [_lst([]), _lst([gf(0)]), _lst([gf(2), gf(0)]), _lst([gf(0), gf(2)])]
+        exprs += [("weak", o000), ("weak", dense), ("strong", o000), ("weak", K2), ("weak", o200)]
+        exprs += [("mul", sc[1], o000), ("mul", o001, o000), ("add", ("pot", 0), ("pot", 1)), ("mul", o002, gf(0))]
+    if not ctx.thorough:
+        # quick tier: one representative per (kind, spaces, class) among the plain leaves
+        keep, seen = [], set()
+        for e in exprs:
+            sig = None
+            if e[0] == "op":
+                o = P.ops[e[1]]
+                sig = ("op", o["dom"], o["ran"], o["dual"], o["dense"], o["kind"] == "ida")
+            elif e[0] == "gf":
+                g = P.gfs[e[1]]
+                sig = ("gf", g["space"], g["dual"])
+            elif e[0] == "pot":
+                q = P.pots[e[1]]
+                sig = ("pot", q["space"], q["pts"])
+            elif e[0] == "sc":
+                sig = ("sc", SC_KINDS[e[1]])
+            if sig is not None:
+                if sig in seen:
+                    continue
+                seen.add(sig)
+            keep.append(e)
+        exprs = keep
+    basis = [n for n in (_mk(e, P) for e in exprs if e is not None and None not in e) if n.status == "ok"]
+    out = []
+    for x in basis:
+        for op in UN:
+            e = (op, x.e)
+            st, val = _try(op, [x], P, e)
+            out.append(Node(e, x.d + 1, val, st, prod=False, single=(st == "err")))
+    for x in basis:
+        for y in basis:
+            for op in BIN:
+                e = (op, x.e, y.e)
+                st, val = _try(op, [x, y], P, e)
+                is_prod = st == "ok" and op in ("mul", "matmul") and x.val.kind == y.val.kind and x.val.kind in ("B", "K", "D")
+                out.append(Node(e, 1 + max(x.d, y.d), val, st, prod=is_prod, single=(st == "err")))
+    # item assignment: every basis element into every block array at a few positions, an operator into everything
+    for k in basis:
+        for o in basis:
+            if k.val.kind != "K" and o.e != o000:
+                continue
+            for (i, j) in [(0, 0), (1, 1), (2, 0), (0, 2)] if k.val.kind == "K" else [(0, 0)]:
+                e = ("set", i, j, k.e, o.e)
+                st, val = _try("set", [k, o], P, e)
+                out.append(Node(e, max(k.d, o.d + 1), val, st, single=(st == "err")))
+    return basis, out
+
+
 def select_programs(ctx, P):
     maxdepth = ctx.pick(5, 8)
     per_level = ctx.pick(70, 160)
+    basis, cat = catalogue(ctx, P)
     well, ill, anys = generate_programs(ctx, P, maxdepth, per_level)
     rng = ctx.rng
-    progs = []
+    progs = list(basis) + cat
     for d, lvl in enumerate(well):
         if d == 0:
             progs += [n for n in lvl if n.e[0] != "sc"][:40]
@@ -922,7 +1045,14 @@ def select_programs(ctx, P):
     rng.shuffle(ill)
     progs += ill[:ctx.pick(160, 700)]
     progs += anys[:ctx.pick(20, 80)]
-    return progs, maxdepth
+    # distinct programs only
+    seen, out = set(), []
+    for n in progs:
+        k = " ".join(tokens(n.e))
+        if k not in seen:
+            seen.add(k)
+            out.append(n)
+    return out, maxdepth
 
 
 # ------------------------------------------------------------------------------------------------
@@ -961,7 +1091,7 @@ def correspondence(ctx):
         chk, _, runres = item.partition(" # ")
         chk, runres = chk.strip(), runres.strip()
         key = " ".join(tokens(n.e))
-        py = py_run(n.e, P)
+        py = api_of(n, P)
         m_ok = runres.startswith("ok")
         if chk.split()[:1] != runres.split()[:1] or (not m_ok and chk != runres):
             res.disagree("model: typecheck verdict differs from evaluation verdict", program=key, check=chk, run=runres[:80])
@@ -1062,16 +1192,15 @@ def oracle(ctx, budget=None):
             counts["skipped"] += 1
             continue
         res.case(("oracle", key), nontrivial=False)
-        # run the real API (raw exceptions)
-        try:
-            v = py_eval(n.e, P)
-            obs = py_observe(v, P)
-            api_ok, exc = True, None
-        except Scope:
+        # the real API
+        r = api_of(n, P)
+        if r[0] == "ok":
+            api_ok, exc, obs, v = True, None, r[1], r[2]
+        elif isinstance(r[3], Scope):
             counts["skipped"] += 1
             continue
-        except Exception as ex:  # noqa
-            api_ok, exc, obs = False, ex, None
+        else:
+            api_ok, exc, obs, v = False, r[3], None, None
         if spec == "err":
             counts["rejected"] += 1
             if api_ok:
